@@ -128,10 +128,14 @@ func (r *resourceLock) getTso() (err error) {
 	ctx, cancel := r.genContext(context.Background())
 	defer cancel()
 	tso, err := r.store.GetTimestampOracle(ctx)
+	if err != nil {
+		// keep the last good timestamp: Describe publishes it as the start revision of a new leader
+		return err
+	}
 	r.mu.Lock()
 	r.tso = tso
 	r.mu.Unlock()
-	return err
+	return nil
 }
 
 // Create implements resourcelock.Interface
@@ -151,7 +155,9 @@ func (r *resourceLock) Create(ler resourcelock.LeaderElectionRecord) error {
 	tso, err := r.store.GetTimestampOracle(context.Background())
 	r.mu.Lock()
 	r.lastVal = lerBytes
-	r.tso = tso
+	if err == nil {
+		r.tso = tso
+	}
 	r.mu.Unlock()
 	return err
 }
@@ -181,10 +187,13 @@ func (r *resourceLock) Update(ler resourcelock.LeaderElectionRecord) error {
 	}
 
 	tso, err := r.store.GetTimestampOracle(context.Background())
+	if err != nil {
+		return err
+	}
 	r.mu.Lock()
 	r.tso = tso
 	r.mu.Unlock()
-	return err
+	return nil
 }
 
 // RecordEvent implements resourcelock.Interface
